@@ -154,4 +154,33 @@ theorem C06_offset_minus_offset (R : Registry) (m : Mode) (a b c : Qty) (s0 : St
   · cases hc
   · cases hc
 
+/-! ### floor division, modulo and divmod follow the rule of true division (F58) -/
+
+/-- without autoconvert an operand on an offset scale is refused by `//`, `%` and `divmod` -/
+theorem C06_floordiv_refuses_offset (R : Registry) (m : Mode) (a : Qty) (b : Operand)
+    (h : R.operandsMult a b = false) (hm : m.autoconvert = false) :
+    R.floordiv m a b = .error .offsetCalc ∧ R.mod m a b = .error .offsetCalc ∧
+      R.divmod m a b = .error .offsetCalc := by
+  have ho : R.offsetFree m a b = .error .offsetCalc := by
+    unfold Registry.offsetFree
+    rw [if_neg (by rw [h]; decide), hm, if_pos (by decide)]
+  simp only [Registry.floordiv, Registry.mod, Registry.divmod, ho, and_self]
+
+/-- with multiplicative operands the three operators are unchanged by the guard -/
+theorem C06_offsetFree_mult (R : Registry) (m : Mode) (a : Qty) (b : Operand)
+    (h : R.operandsMult a b = true) :
+    R.offsetFree m a b = .ok (a, b) := by
+  unfold Registry.offsetFree
+  rw [if_pos h]
+
+/-- in autoconvert mode both operands are taken to root units first: the result does not depend on the
+    scale the temperatures are written in -/
+theorem C06_floordiv_autoconvert (R : Registry) (m : Mode) (a b a' b' : Qty)
+    (h : R.operandsMult a (.q b) = false) (hm : m.autoconvert = true)
+    (ha : R.toRoot m a = .ok a') (hb : R.toRoot m b = .ok b') :
+    R.offsetFree m a (.q b) = .ok (a', .q b') := by
+  unfold Registry.offsetFree
+  rw [if_neg (by rw [h]; decide), hm, if_neg (by decide), ha]
+  simp only [hb]
+
 end Pint.Props.C06
